@@ -40,6 +40,28 @@ CHECKS["C04"] = dict(
     design_ref="DESIGN.md section 2, C04",
 )
 
+CHECKS["C03"] = dict(
+    technique="TLA+ state machine KeyLifecycle (DKG action) model-checked by TLC + TLC trace validation of real DKG runs (rounds and runners) on a toy group",
+    text="Real trusted-dealer, Gennaro and Canetti key generations (round-by-round over CBOR bytes, and through the networked runner API over real Routers) on a toy prime-order group, "
+         "over threshold, unanimity, CNF and gate-tree structures with dense/sparse/large identifiers: TLC recomputes every dealing mod q (shares on the wire = dealer column applied to the "
+         "recipient's rows, Pedersen vectors consistent under one second generator), checks that the span programme realises the policy (certificates verified by TLC), that all parties "
+         "output the same key material = the sum of the dealings, that each private share matches its public share, that exactly the qualified sets reconstruct log(pk), and that stored and "
+         "reloaded shards are identical. KeyLifecycleMC explores the DKG action on the design over Z_5.",
+    note="Trusted: TLC, the spec, the toy group. The generic DKG code is what production groups run; curve arithmetic is not covered here. Fiat-Shamir compiler only (others: C08).",
+    design_ref="DESIGN.md section 2, C03",
+)
+CHECKS["C01"] = dict(
+    technique="TLA+ KeyLifecycle signing algebra model-checked by TLC + TLC trace validation (the spec is the independent verifier) of real Lindell22 threshold-Schnorr runs on a toy group",
+    text="For keys produced by trusted dealing, Gennaro and Canetti (rounds and runners) over threshold, unanimity, CNF and gate-tree structures (non-ideal span programmes included), real "
+         "Lindell22 cosigners (generic Schnorr variant) sign with EVERY qualified quorum, minimal and non-minimal; unqualified quorums must be refused. TLC recomputes each additive key share, "
+         "zero blinding, partial response and the aggregate mod q, requires all aggregators (plain and every cosigning one) to output that same signature, verifies it in the exponent "
+         "(g^s = R pk^e) as an independent verifier, and requires the library verifier to agree and to reject the signature under another message exactly when the equation fails. "
+         "SignAlgebra is model-checked on the design over Z_5.",
+    note="PARTIAL w.r.t. the property's list of protocols: only Lindell22 with the configurable generic Schnorr variant is instantiable on the toy group. BIP-340/Mina variants, DKLs23 (both multipliers), "
+         "Lindell17, Boldyreva and CGGMP21 need production curves/pairings and are not decided by this check (DESIGN.md section 8). Trusted: TLC, the spec, the toy group.",
+    design_ref="DESIGN.md section 2, C01",
+)
+
 NOT_APPLICABLE = {
     "C13": "byte-level encode/decode fidelity of 256-381-bit curve elements: no state/transition structure and operands TLC cannot represent; a TLA+ specification would decide nothing (DESIGN.md section 3)",
 }
